@@ -20,13 +20,29 @@ def plan(seed):
     # populated variant: a full run first, then an edit is not needed: the restricted run on a cold store is the hard case
     ev = [("prog", prog), ("act", restricted), ("act", restricted), ("act", call), ("act", call)]
     control = [("prog", prog), ("act", call), ("act", call)]
-    return {"seed": seed, "n": n, "store": store, "events": ev, "control": control, "call": call}
+    # restricted run, then the program state changes in the same process (a tracked variable is reassigned), then the full
+    # run: it must be the full run of the NEW state (nothing of the restricted run's analysis may be reused)
+    cands = [(m, v) for (m, nm) in P.reachable(prog, *prog["root"]) for v in P.find_func(prog, m, nm)["reads"]]
+    ev2 = ctl2 = None
+    if cands:
+        m, v = rng.choice(cands)
+        old = prog["modules"][m]["vars"][v]
+        new = rng.choice([x for x in P.VAR_VALUES if x != old])
+        sv = ("act", {"a": "setvar", "mod": m, "name": v, "value": new})
+        sv_back = ("act", {"a": "setvar", "mod": m, "name": v, "value": old})
+        ev2 = [("prog", prog), ("act", restricted), sv, ("act", call), sv_back, ("act", restricted), ("act", call)]
+        ctl2 = [("prog", prog), sv, ("act", call), sv_back, ("act", call)]
+    return {"seed": seed, "n": n, "store": store, "events": ev, "control": control, "call": call, "events2": ev2, "control2": ctl2}
 
 
 def run_one(job):
     try:
+        r2 = None
+        if job.get("events2"):
+            r2 = (hist.run_history(job["events2"], store_kind=job["store"]),
+                  hist.run_history(job["control2"], store_kind=job["store"], run_ref=False, run_model=False))
         return (hist.run_history(job["events"], store_kind=job["store"]),
-                hist.run_history(job["control"], store_kind=job["store"], run_ref=False, run_model=False))
+                hist.run_history(job["control"], store_kind=job["store"], run_ref=False, run_model=False), r2)
     except Exception as e:  # noqa
         return {"error": str(e)[-1000:]}
 
@@ -43,8 +59,26 @@ def run(rep, tier, seed, proof_ok, rng):
         if isinstance(res, dict):
             rep.violation("harness-error:c15", "history could not be run: " + res["error"][-300:], {"events": pl["events"]}, no_input=True)
             continue
-        recs, ctl = res
+        recs, ctl, r2 = res
         replay = {"events": pl["events"], "n_stages": pl["n"], "store": pl["store"]}
+        if r2:
+            recs2, ctl2 = r2
+            rep.case(f"prog:{pl['seed']}:{pl['n']}:{pl['store']}:state-change-after-restricted")
+            replay2 = {"events": pl["events2"], "n_stages": pl["n"], "store": pl["store"]}
+            for i, r in enumerate(recs2):
+                d = hist.compare(r)
+                if d:
+                    rep.violation("model-mismatch:" + d[0][0], f"restricted run, state change, full run: implementation and model disagree at action {i}: "
+                                  f"{json.dumps(d[:2])[:300]}", dict(replay2, action=i))
+            full2 = [r for r in recs2 if r["act"]["a"] == "call" and r["act"].get("n_stages") is None]
+            cfull2 = [r for r in ctl2 if r["act"]["a"] == "call"]
+            for a, b in zip(full2, cfull2):
+                if hist.impl_obs(a)["sigs"] != hist.impl_obs(b)["sigs"] or a["impl"]["out"] != b["impl"]["out"]:
+                    rep.violation("restricted-run-perturbs:state-change-in-between", "a full evaluation after (restricted run, variable reassigned) differs "
+                                  "(signatures or result) from the same evaluation without the restricted run",
+                                  dict(replay2, with_restricted=a["impl"]["out"][:100], without=b["impl"]["out"][:100]))
+                if a["ref"]["out"] is not None and a["impl"]["out"] != a["ref"]["out"]:
+                    rep.violation("wrong-after-restricted", f"full evaluation after a restricted one returns {a['impl']['out'][:80]} instead of {a['ref']['out'][:80]}", replay2)
         for i, r in enumerate(recs):
             d = hist.compare(r)
             if d:
